@@ -131,9 +131,31 @@ seq(prop="C18", lean_targets=["TransportVerif.Props.C18"], pkg="test", run="^Tes
          "the queue, a write is filtered or dropped by count, a delivery is cut; distinct = hash of the ops text",
     design_ref="DESIGN.md 7.18",
     technique="Lean 4 proof: Bridge model (two hand-duplicated directions, stack+inverse) refines the symmetric list script; dpipe model refines two bounded FIFOs; no-dup/no-invention/conservation as corollaries on the spec; differential correspondence with test.Bridge and dpipe.Pipe",
-    level_text="PENDING", level_note="PENDING",
+    level_text='Theorems bridge_step_refines / bridge_refines_script (Props/C18.lean): for EVERY Bridge state and every script (writes both ways, DropNextNWrites, ReorderNextNWrites also repeated or with n <= 1, Drop with any offset/count, Reorder, Filter, deliveries into slices of any length) the model of bridge.go — with its two hand-duplicated directions, collecting stack and inverse() — answers exactly as the symmetric list script of Spec/Pipe.lean. On the script semantics: conservation (written = delivered + discarded + held, as multisets, at every point), no_dup, no_invention, fifo_when_unimpaired, reorder_block_reversed, deliver_is_head_cut. dpipe: dpipe_step_refines / dpipe_is_message_fifo (two bounded message FIFOs, one message per read, cut to the slice) and dpipe_close_is_local. Models tied to test.Bridge and dpipe.Pipe by differential runs (answers, queue lengths; stacks and counters white-box; a delivery is a parked reader plus Tick).', level_note="Trusted: Lean kernel + standard axioms (no Classical.choice used); reading of C18 in Spec/Pipe.lean, in particular the precedence drop count > reorder block > filter taken from the code; correspondence harness. Not covered: Bridge endpoint Close, SetLossChance (random loss), deadlines (C10), dpipe writes that would block on a full channel (reported as 'block', not issued).",
     trusted=_C18_TB, assumptions=["Bridge endpoints are not closed and SetLossChance is 0 (outside the property's quantifier)", "sequential scripts; a delivery is one Tick with exactly one parked reader"],
     variants=[dict(name="bridge"),
               dict(name="dpipe", pkg="dpipe", inpkg="dpipe", run="^TestVerifDPipe$", component="dpipe", files=["dpipe_h_test.go"], wb_files=["dpipe_wb_test.go"])])
+
+_NAT_COMMON = dict(
+    pkg="vnet", run="^TestVerifNAT$", component="nat", files=["nat_h_test.go"], quick_n=8000, thorough_n=300000,
+    trusted=LEAN_TB + ["hand-written Lean model of vnet/nat.go (Model/Nat.lean) validated on every run against networkAddressTranslator: every result (L1) and both maps, filters, remaining lifetimes, port counter (L2) after every call",
+                       "reading of C02/C03 as Spec/Nat.lean (history recorder + judgements)",
+                       "time is advanced by moving every mapping's expiry stamp back (white box); net.ResolveUDPAddr as 'fails iff port > 65535'; string keys modelled as tuples"],
+    assumptions=["one clock reading per call (real time between calls is microseconds; step sizes never make a gap exactly equal to the lifetime)",
+                 "UDP chunks only; Hairpinning and PortPreservation are not implemented by the code and not modelled"],
+)
+seq(prop="C02", lean_targets=["TransportVerif.Props.C02"], driver_args=["C02"],
+    nontrivial=["reuse", "refresh", "realloc-after-expiry", "same-endpoint-other-mapping", "exhausted", "one2one"],
+    rule="random histories (15..80 calls) of outbound/inbound datagrams and time steps around the lifetime over 6 internal endpoints (incl. near-collision "
+         "texts) x 6 remotes, all 9 mapping x filtering behaviours, several lifetimes incl. the default, 1:1 mode with 0..3 pairs; one history per run crosses "
+         "16384 allocations. non-trivial = a mapping is reused, refreshed, re-allocated after expiry, a second mapping of the same endpoint exists, the port "
+         "range is exhausted, or 1:1 mode; distinct = hash of the ops text",
+    design_ref="DESIGN.md 7.2", technique="Lean 4 proof: invariant over call histories (maps are inverse views, ports injective) and refinement to the mapping-history spec; differential correspondence model vs. Go",
+    level_text="PENDING", level_note="PENDING", **_NAT_COMMON)
+seq(prop="C03", lean_targets=["TransportVerif.Props.C03"], driver_args=["C03"],
+    nontrivial=["admitted", "refused-noperm", "refused-expired", "refused-unknown", "refused-unpaired"],
+    rule="as C02; non-trivial = the history contains an inbound datagram (admitted, refused for lack of permission, to an expired or never allocated address, or to an unpaired 1:1 address); distinct = hash of the ops text",
+    design_ref="DESIGN.md 7.3", technique="Lean 4 proof: exact admission rule as decision logic over the mapping-history spec; refused inbound is silent (state equality up to expired entries); differential correspondence model vs. Go",
+    level_text="PENDING", level_note="PENDING", **_NAT_COMMON)
 
 ALL = SEQ
